@@ -6,7 +6,7 @@
    Ops.read_partial. *)
 From Coq Require Import QArith.
 From HS Require Import Prelude Cov Map Spec Ops Spec2 Params AtFold MapProofs UpdateProofs HistoryProofs
-     LayoutProofs AccountProofs OpsProofs PartialProofs Exec Exec2 ExecProofs.
+     LayoutProofs AccountProofs OpsProofs PartialProofs Exec Exec2 ExecProofs PartialRefine.
 Open Scope Z_scope.
 
 Section C03.
@@ -38,6 +38,14 @@ Theorem C03_full_read_is_the_same_state :
                        nfine (copy_map V m) = nfine m /\ blank (copy_map V m) = blank m.
 Proof. intros m. repeat split. Qed.
 
+(* the same at the level of the whole map: the abstraction of the map read with pixels=req is the
+   restriction of the abstraction (resolution, every pixel, coverage mask, blank) *)
+Theorem C03_partial_read_refines_the_restriction :
+  forall (m m' : smap V) (req : list Z),
+    wf P m -> read_partial V m req = Some m' ->
+    abs V (p_dv P) m' = d_restrict V (p_dv P) req (abs V (p_dv P) m).
+Proof. exact (read_partial_refines P). Qed.
+
 End C03.
 
 Example C03_hypotheses_satisfiable :
@@ -60,4 +68,5 @@ Qed.
 Print Assumptions C03_partial_read_is_the_restriction.
 Print Assumptions C03_partial_read_rejected_iff_nothing_covered.
 Print Assumptions C03_full_read_is_the_same_state.
+Print Assumptions C03_partial_read_refines_the_restriction.
 Print Assumptions C03_hypotheses_satisfiable.
